@@ -134,6 +134,7 @@ def c_pwm_direct(clock_domain="sys"):
     counter_clauses(h, "", F, d.counter, en, rst)
     G = channel_clauses(h, "", F, en, V(d.width), h.n(d.pwm))
     first = t0_ghost(h)
+    h.hint("t0", z3.Implies(first, z3.And(V(d.counter) == K(0, 32), V(d.pwm) == ZERO)))
     h.ensure("ens.reset-state", z3.Implies(first, z3.And(V(d.counter) == K(0, 32), V(d.pwm) == ZERO)))
     # a complete 2-of-5 frame, a 100 % frame (width > period) and a 0 % frame are reachable
     h.cover("cover.frame(2/5)", z3.And(F["wrap"], G["held"], V(d.period) == K(5, 32), V(d.width) == K(2, 32), G["total"] == K(2, W)), depth=8)
@@ -212,6 +213,7 @@ def c_pwm_csr(de=1, dw=3, dp=8):
     h.ensure("ens.csr.wiring", z3.And(V(p.enable) == V(p._enable.storage), V(p.width) == V(p._width.storage), V(p.period) == V(p._period.storage)))
     _storage_clauses(h, d, "ens.csr.enable", p._enable, 1); _storage_clauses(h, d, "ens.csr.width", p._width, 32); _storage_clauses(h, d, "ens.csr.period", p._period, 32)
     first = t0_ghost(h)
+    h.hint("t0", z3.Implies(first, z3.And(V(p.counter) == K(0, 32), V(p.pwm) == ZERO, V(p._enable.storage) == K(de, 1), V(p._width.storage) == K(dw, 32), V(p._period.storage) == K(dp, 32))))
     h.ensure("ens.reset-state", z3.Implies(first, z3.And(V(p.counter) == K(0, 32), V(p.pwm) == ZERO, V(p.enable) == K(de, 1), V(p.width) == K(dw, 32), V(p.period) == K(dp, 32))))
     nowr = h.ghost("nowrite", 1, init=1); h.ghost_next(nowr, bv1(z3.And(b(nowr), z3.Not(b(V(d.bus.we))))))
     if de and dp >= 1:
@@ -279,6 +281,7 @@ def c_multichannel(n=2, full=False):
                   f"MultiChannelPWM: the shared frame counter is gated by channel 0's enable; channel {k} enabled alone never leaves frame position 0, "
                   "its output is stuck high (width > 0) instead of width/period")
     first = t0_ghost(h)
+    h.hint("t0", z3.Implies(first, z3.And(V(d.pads) == K(0, n), C == K(0, 32), *[V(c._enable.storage) == ZERO for c in ch])))
     h.ensure("ens.reset-state", z3.Implies(first, z3.And(V(d.pads) == K(0, n), C == K(0, 32), *[z3.Not(e) for e in en])))
     both = z3.And(F["wrap"], F["ph"] == K(3, 32), period == K(4, 32), V(ch[0].width) == K(1, 32), V(ch[1].width) == K(3, 32))
     h.cover("cover.two-duties", z3.And(both, h.ghosts["ch0.acc"][0] + z(z3.Extract(0, 0, padn)) == K(1, W), h.ghosts["ch1.acc"][0] + z(z3.Extract(1, 1, padn)) == K(3, W)), depth=14)
@@ -317,6 +320,7 @@ def c_watchdog_opts(width=8, delay=3, with_halt=True, stale=False):
         cands = [cnt] if cnt is not None and cnt in h.ts.var else [s for s in h.ts.state if s.nbits == max(1, delay.bit_length()) and s.reset.value == delay]
         for s in cands: h.hint(f"cnt:{s.duid}", zx(V(s), GW) + c == K(delay, GW))                   # WaitTimer count register (whatever it is called)
         pw = h.prev("wait", bv1(wait))
+        h.hint("waited>0->wait before", z3.Implies(c != K(0, GW), b(pw)))
         if delay >= 1:
             h.ensure("ens.reset.delay", b(V(d.rst)) == uge(c, delay))                               # SoC reset exactly after reset_delay consecutive time-out cycles
             h.ensure("ens.reset.only-on-timeout", z3.Implies(b(V(d.rst)), b(pw)))
